@@ -39,6 +39,8 @@ func c17alphabet() []string {
 		// names that are opaque to MQTT but that a path-cleaning prefix function would rewrite: '..' into the
 		// other tenant's mount point, '.', and an empty level ("@O" is replaced by the other tenant's mount point)
 		out = append(out, t+":pub:../@O/t:-", t+":sub:../@O/#", t+":pub:./t:-", t+":pub:t//u:-")
+		// a topic that begins with a separator (its first level is empty): what comes back must begin with it too
+		out = append(out, t+":pub:/t:-")
 		// a QoS 2 publish started now and released later (other events happen while the message waits in the broker)
 		out = append(out, t+":q2start:t", t+":q2release")
 		out = append(out, t+":willdrop", t+":dupid")
